@@ -97,3 +97,14 @@ package account
 //@        && (forall j int :: {m[j]} 0 <= j && j < i ==> !ruleMatches(m[j], a.name))) ==> result == a && tlen() == old(tlen())
 //@   ensures @collapse: (exists i int :: 0 <= i && i < len(m) && ruleMatches(m[i], a.name) && m[i].Level > 0 && m[i].Level + m[i].Suffix <= len(a.segments)
 //@        && (forall j int :: {m[j]} 0 <= j && j < i ==> !ruleMatches(m[j], a.name))) ==> tlen() == old(tlen()) + 1 && result == tres("MustGetPath", old(tlen()))
+//
+// Compare: the lexicographic order on (type, name) - a total order whose only ties are accounts with
+// the same type and name (lemmas acct_cmp_antisym, acct_cmp_tie).
+//@ def acctCmp(a *Account, b *Account) int := a.accountType < b.accountType ? 0 - 1 : (a.accountType > b.accountType ? 1 : (a.name < b.name ? 0 - 1 : (a.name == b.name ? 0 : 1)))
+//@ func Compare
+//@   requires a1 != nil && a2 != nil
+//@   ensures [C06] [C05] @lex: result == acctCmp(a1, a2)
+//
+//@ lemma acct_cmp_antisym: forall a *Account, b *Account :: a != nil && b != nil ==> acctCmp(a, b) == 0 - acctCmp(b, a)
+//@ lemma acct_cmp_tie: forall a *Account, b *Account :: a != nil && b != nil ==> (acctCmp(a, b) == 0 <==> (a.accountType == b.accountType && a.name == b.name))
+//@ lemma acct_cmp_trans: forall a *Account, b *Account, c *Account :: a != nil && b != nil && c != nil && acctCmp(a, b) <= 0 && acctCmp(b, c) <= 0 ==> acctCmp(a, c) <= 0
